@@ -1,5 +1,5 @@
 (* C16 - IMP conversion is the official scale, odd and monotone, for every difference. *)
-From BE Require Import Model.Score Spec.Duplicate Gen.ScoreConsts Proofs.C16.
+From BE Require Import Model.Score Spec.Duplicate Gen.ScoreConsts Gen.ScoreFns Proofs.C16 Proofs.ScoreGen Proofs.ScoreGenCor.
 Open Scope Z_scope.
 
 Theorem C16_tuple_is_official_scale : k_imps_list = official_imp_bounds.
@@ -26,3 +26,20 @@ Print Assumptions C16_24_from_4000.
 Theorem C16_two_scores : forall a b, score_to_imp a b = official_imps (a + b).
 Proof. exact two_scores. Qed.
 Print Assumptions C16_two_scores.
+
+(* ---- the same for the functions REGENERATED from the text of score.py on every run (harness/gen_score.py -> Gen/ScoreFns.v) ---- *)
+Theorem C16_generated_model_is_hand_model : forall d, g_point_difference_to_imps d = point_difference_to_imps d.
+Proof. exact g_imps_eq. Qed.
+Print Assumptions C16_generated_model_is_hand_model.
+Theorem C16_official_generated : forall d, g_point_difference_to_imps d = official_imps d.
+Proof. exact g_imps_official. Qed.
+Print Assumptions C16_official_generated.
+Theorem C16_range_generated : forall d, -24 <= g_point_difference_to_imps d <= 24.
+Proof. exact g_imps_range. Qed.
+Theorem C16_monotone_generated : forall d e, d <= e -> g_point_difference_to_imps d <= g_point_difference_to_imps e.
+Proof. exact g_imps_monotone. Qed.
+Theorem C16_odd_generated : forall d, g_point_difference_to_imps (- d) = - g_point_difference_to_imps d.
+Proof. exact g_imps_odd. Qed.
+Theorem C16_two_scores_generated : forall a b, g_score_to_imp a b = official_imps (a + b).
+Proof. exact g_two_scores. Qed.
+Print Assumptions C16_two_scores_generated.
